@@ -580,6 +580,7 @@ def run_concurrent(case):
             # from a model walk so that at least one serialisation is sensible
             m = drv.model.clone()
             burst = []
+            part_open = m.partial
             for _ in range(rnd.randint(2, 4)):
                 en = [e for e in m.enabled() if not e.startswith('t:')]
                 if not en:
@@ -587,6 +588,14 @@ def run_concurrent(case):
                 ev = _pick(m, rnd)
                 if ev.startswith('t:'):
                     continue
+                # keep the peer's PDV stream well-formed under EVERY serialisation: once a
+                # partial message is open in this burst only its continuation may follow
+                if part_open and ev in ('p:data', 'p:data2', 'p:part'):
+                    continue
+                if ev == 'p:part':
+                    part_open = True
+                elif ev == 'p:rest':
+                    part_open = False
                 burst.append(ev)
                 m.apply(ev, 0.0)
         peer_seq = [e for e in burst if e.startswith('p:')]
